@@ -133,17 +133,59 @@ func runC05(c *core.Ctx) {
 		var err error
 		var trace []string
 		c.Eval(1)
-		p, msg := core.Guard(func() {
-			trace = append(trace, "EncryptFRMPayload")
-			if err = tx.EncryptFRMPayload(lorawan.AES128Key(frmKey)); err != nil {
-				return
+		// the steps that do not depend on one another are taken in either order, and calls that only
+		// inspect the frame (a log line, a dry-run serialisation, a MIC check with some other key)
+		// may happen anywhere in between
+		foptsFirst, rxFRMFirst := r.Bool(), r.Bool()
+		peek := func(f *lorawan.PHYPayload) {
+			switch r.Intn(6) {
+			case 0:
+				trace = append(trace, "(MarshalBinary)")
+				f.MarshalBinary()
+			case 1:
+				trace = append(trace, "(MarshalText)")
+				f.MarshalText()
+			case 2:
+				trace = append(trace, "(ValidateMIC)")
+				if up {
+					f.ValidateUplinkDataMIC(macVer(v11), conf+1, txDR, txCh, lorawan.AES128Key(k.app), lorawan.AES128Key(k.sInt))
+				} else {
+					f.ValidateDownlinkDataMIC(macVer(v11), conf+1, lorawan.AES128Key(k.app))
+				}
 			}
-			if v11 {
-				trace = append(trace, "EncryptFOpts")
-				if err = tx.EncryptFOpts(lorawan.AES128Key(k.enc)); err != nil {
+		}
+		p, msg := core.Guard(func() {
+			encFRM := func() bool {
+				trace = append(trace, "EncryptFRMPayload")
+				err = tx.EncryptFRMPayload(lorawan.AES128Key(frmKey))
+				return err == nil
+			}
+			encFOpts := func() bool {
+				if v11 {
+					trace = append(trace, "EncryptFOpts")
+					err = tx.EncryptFOpts(lorawan.AES128Key(k.enc))
+				}
+				return err == nil
+			}
+			peek(&tx)
+			if foptsFirst {
+				if !encFOpts() {
+					return
+				}
+				peek(&tx)
+				if !encFRM() {
+					return
+				}
+			} else {
+				if !encFRM() {
+					return
+				}
+				peek(&tx)
+				if !encFOpts() {
 					return
 				}
 			}
+			peek(&tx)
 			trace = append(trace, "SetMIC")
 			if up {
 				err = tx.SetUplinkDataMIC(macVer(v11), conf, txDR, txCh, lorawan.AES128Key(k.fInt), lorawan.AES128Key(k.sInt))
@@ -153,8 +195,14 @@ func runC05(c *core.Ctx) {
 			if err != nil {
 				return
 			}
+			peek(&tx)
 			trace = append(trace, "MarshalBinary")
 			wire, err = tx.MarshalBinary()
+			if err == nil {
+				if again, e2 := tx.MarshalBinary(); e2 != nil || !bytes.Equal(again, wire) {
+					err = fmt.Errorf("second MarshalBinary gives %x (err %v), first gave %x", again, e2, wire)
+				}
+			}
 		})
 		if p || err != nil {
 			c.Violate("C05|sender-failed|"+trace[len(trace)-1], "sender sequence %v failed: %v %s | frame %s", trace, err, msg, short(core.Dump(d.Lib()), 500))
@@ -177,17 +225,25 @@ func runC05(c *core.Ctx) {
 			c.Violate(fmt.Sprintf("C05|wire-mic-not-spec|%s|v11=%v", dir, v11), "wire %x does not carry the spec MIC", wire)
 		}
 		p, msg = core.Guard(func() {
-			if v11 {
-				err = got.DecryptFOpts(lorawan.AES128Key(k.enc))
-			} else {
-				err = got.DecodeFOptsToMACCommands()
-			}
-			if err != nil {
+			decFOpts := func() bool {
 				stage = "fopts"
-				return
+				if v11 {
+					err = got.DecryptFOpts(lorawan.AES128Key(k.enc))
+				} else {
+					err = got.DecodeFOptsToMACCommands()
+				}
+				return err == nil
 			}
-			err = got.DecryptFRMPayload(lorawan.AES128Key(frmKey))
-			stage = "frmpayload"
+			decFRM := func() bool {
+				stage = "frmpayload"
+				err = got.DecryptFRMPayload(lorawan.AES128Key(frmKey))
+				return err == nil
+			}
+			if rxFRMFirst {
+				_ = decFRM() && decFOpts()
+			} else {
+				_ = decFOpts() && decFRM()
+			}
 		})
 		if p || err != nil {
 			c.Violate(fmt.Sprintf("C05|receiver-decrypt-failed|%s|v11=%v|%s", dir, v11, stage), "%v %s | wire %x", err, msg, wire)
